@@ -323,7 +323,23 @@ def run_check(ctx, mod):
     if not driver_ok:
         os.environ['PY65_DRIVER'] = os.path.join(LEAN, '.lake', 'build', 'bin', 'specdriver')
     # stage 4+5 (property specific): fills ctx.findings / ctx.broken / ctx.stats
-    mod.explore(ctx)
+    try:
+        mod.explore(ctx)
+    except subprocess.TimeoutExpired:
+        raise
+    except Exception as ex:
+        # an exception escaping from the implementation under test while exploring is a behaviour
+        # difference the exploration did not anticipate: report it (with whatever concrete findings
+        # were collected before it); an exception with no frame in the implementation is ours.
+        text = ''.join(traceback.format_exception(type(ex), ex, ex.__traceback__))
+        repo = os.path.realpath(REPO)
+        frames = re.findall(r'File "(%s/[^"]+)", line (\d+), in (\S+)' % re.escape(repo), text)
+        if not frames:
+            raise
+        fn, ln, name = frames[-1]
+        ctx.broken.append(dict(kind='tie', what='the implementation raised %s during the exploration (%s:%s %s)'
+                                    % (type(ex).__name__, os.path.relpath(fn, repo), ln, name),
+                               detail=text[-1500:]))
     # decide
     known = load_known()
     new, seen = [], []
